@@ -270,12 +270,13 @@ def r3_wire(ctx, nf) -> None:
     for guards, outcome, term, node, env in tpaths:
         ok = True
         for g, taken, _ in guards:
-            if g[0] == "op" and g[1] == "cmp:Is" and g[2][1] == ("const", None):
+            if g[0] == "op" and g[1] in ("cmp:Is", "cmp:IsNot") and g[2][1] == ("const", None):
                 is_none = g[2][0] == ("const", None)
                 definitely_obj = g[2][0][0] in ("ctor", "call", "map", "list")
-                if definitely_obj and taken:
+                none_taken = taken if g[1] == "cmp:Is" else not taken       # the outcome "it is None"
+                if definitely_obj and none_taken:
                     ok = False
-                if is_none and not taken:
+                if is_none and not none_taken:
                     ok = False
         if ok:
             feasible.append((term, node))
